@@ -31,6 +31,9 @@ type c11Case struct {
 	Via string `json:"via"`
 	// OwnPkg: which fixture package is the target when Target == own
 	OwnPkg string `json:"ownpkg,omitempty"`
+	// Reuse: the one snippet value is first rendered somewhere else ("other": an unrelated package, "clash": a package whose
+	// tracker holds clashing names, "pkg:<fixture>": one of the packages the type mentions) and then where the case says
+	Reuse string `json:"reuse,omitempty"`
 }
 
 func genC11(t *rapid.T) c11Case {
@@ -67,6 +70,13 @@ func genC11(t *rapid.T) c11Case {
 			}
 		}
 	}
+	if rapid.IntRange(0, 3).Draw(t, "reuse") == 0 {
+		opts := []string{"other", "clash"}
+		for _, p := range pkgs {
+			opts = append(opts, "pkg:"+p)
+		}
+		c.Reuse = rapid.SampledFrom(opts).Draw(t, "reusewhere")
+	}
 	return c
 }
 
@@ -100,6 +110,22 @@ func renderType(c c11Case, targetPath string) (string, namer.ImportTracker, erro
 		sn = snippet.Sprintf("%T", arg)
 	} else {
 		sn = snippet.ID(arg)
+	}
+	if c.Reuse != "" {
+		warmTracker := namer.NewDefaultImportTracker()
+		warmTarget := "example.com/warmup/elsewhere"
+		switch {
+		case c.Reuse == "clash":
+			for _, p := range clashSeeds {
+				warmTracker.AddType(gengotypes.Ref(p, "Seed"))
+			}
+		case strings.HasPrefix(c.Reuse, "pkg:"):
+			warmTarget = fxPaths[strings.TrimPrefix(c.Reuse, "pkg:")]
+		}
+		warm := gengo.NewSnippetWriter(&bytes.Buffer{}, namer.NameSystems{"raw": namer.NewRawNamer(warmTarget, warmTracker)})
+		if p := ev.Panics(func() { warm.Render(sn) }); p != nil {
+			return "", nil, fmt.Errorf("rendering %s (via %s) panics: %v", c.T.key(), c.Via, p)
+		}
 	}
 	if p := ev.Panics(func() { w.Render(sn) }); p != nil {
 		return "", nil, fmt.Errorf("rendering %s (via %s) panics: %v", c.T.key(), c.Via, p)
@@ -273,6 +299,9 @@ func c11Classes(c c11Case) []string {
 	}
 	if hasError {
 		cl = append(cl, "error")
+	}
+	if c.Reuse != "" {
+		cl = append(cl, "snippet-value-rendered-elsewhere-first")
 	}
 	return cl
 }
